@@ -131,7 +131,7 @@ CHECKS = {
              "TrafficCorridorSimulation are modelled instances (examples_step_is_history, examples_reachable_WInv, "
              "examples_simIface_reachable: every world their own reset / step can reach satisfies WInv), tied by direct "
              "calls on real objects against the model (op gexample): their glue is no longer only monitored "
-             "(ReachTheTargetSim stays a monitor judged by WInvWeak). Found by this stream and repaired in /repo: C09-A1 "
+             "(ReachTheTargetSim: see the end of this text). Found by this stream and repaired in /repo: C09-A1 "
              "(c4ff362: overwriting the observation of AbsolutePositionObserver in place moved the agent away from the "
              "cell that stores it), C02-E2 / C02-E3 (afc90bd, c275832: TeamBattleSim.step raised half-way, after the "
              "attack had been applied); callers that overwrite returned observations are part of the stream.",
@@ -522,6 +522,52 @@ CHECKS = {
              "test, attack actors) enter the model through the twin's returned values: there the model's prediction is the "
              "right-hand side of the per-call commuting theorem evaluated on the twin's outcome."),
 }
+
+# three more packaged examples inside the model (MultiCorridor, MultiAgentGridSim, ReachTheTargetSim)
+MORE_EXAMPLES = {
+    "C01": "Three more packaged examples are modelled instances: MultiCorridor (Model/Corridor.lean; Cor.cor_lawful, "
+           "Cor.cor_WF, C01_MultiCorridor), MultiAgentGridSim (Model/MultiGrid.lean; MAG.mag_lawful, C01_MultiAgentGridSim) "
+           "and ReachTheTargetSim (Model/Reach.lean; RT.rt_lawful, C01_ReachTheTarget): specC01 for every configuration, "
+           "manager and history; tied by the same two streams (ops mgrx / gexample with configurations `(corridor ..)`, "
+           "`(multigrid ..)`, `(reach ..)`; corridors of 30+ cells with 11+ agents and 150+ manager steps included).",
+    "C07": "MultiCorridor, MultiAgentGridSim and ReachTheTargetSim are modelled instances too (C07_MultiCorridor, "
+           "C07_MultiAgentGridSim, C07_ReachTheTarget and the *_every_call_returns corollaries), tied by op mgrx.",
+    "C02": "Also modelled: MultiCorridor (corridor_observations_in_space: every observation of every reachable state is in "
+           "Dict(position: Box(0, end-1), left / right: MultiBinary(1)); corridor_step_noRaise: a step for distinct agents "
+           "that are not done never raises, whatever the action values; corridor_done_agent_right_raises: RIGHT for a done "
+           "agent does raise - the managers never hand such an action on; corridor_hist: the judge Cor.specCor holds on the "
+           "model's trace for EVERY history, incl. arbitrary action dicts and steps that raise, whose exact partial state "
+           "is modelled), MultiAgentGridSim (multigrid_observation_in_space, multigrid_step_noRaise, multigrid_hist) and "
+           "ReachTheTargetSim (model and judge RT.specRT; two findings were first carried by the model as KeyError branches "
+           "and proved on witnesses, then repaired in the repo, the model follows, regression theorems "
+           "reach_R1_witness_processed / reach_R2_witness_processed and corpus cases C02/R1-*, R2-*: R1 - a runner "
+           "standing on the target's cell after reset and killed in the attack loop made step raise KeyError in "
+           "grid.remove, for in-space actions under AllStepManager; R2 - finding C02-E3 was still in reach_the_target.py; "
+           "reach_observations_in_space: in every state its own reset / step can reach, get_obs of every agent with an "
+           "in-grid position lies in the declared space - the WInv observer theorem transported through RT.heal, since "
+           "these worlds only satisfy WInvWeak; reach_step_noRaise_WInv / reach_first_step_noRaise: a step whose items are "
+           "points of the declared action spaces of learning agents does not raise when it starts in a WInv world, in "
+           "particular the first step of every episode (the situation of R1); for steps starting in a world that is "
+           "only WInvWeak this is judged at run time (RT.stepMustNotRaise): missing is that "
+           "SelectiveAttackActor.process_action returns there (attackOK_all is proved for WInv worlds)).",
+    "C03": "MultiCorridor's own invariant (positions within 0..end-1, not-done agents pairwise apart, corridor cells = the "
+           "not-done agents at their positions) is proved for every history (corridor_reachable_inv, corridor_inv_reading); "
+           "MultiAgentGridSim is a modelled instance (multigrid_reachable_WInv, multigrid_simIface_reachable); "
+           "ReachTheTargetSim is modelled (Model/Reach.lean, op gexample: model = implementation call by call): "
+           "reach_reachable_WInvWeak / reach_simIface_reachable - every world its own reset / step can reach (ANY action "
+           "dicts) satisfies WInvWeak and has the constructed static part; WInv itself is false there as soon as a runner "
+           "reached the target (active = False by hand, health positive: the clause `active iff health positive` is for "
+           "the built-in components alone). The WInvWeak versions of the component lemmas were proved for this: "
+           "RT.moveAct_weak, RT.processAttack_weak (every attack actor, attacker, action, tape), RT.takeOff_weak (the "
+           "hand-written grid.remove + active = False); reach_reset_establishes: reset turns any WInvWeak world into a "
+           "WInv world.",
+    "C08": "Also: MultiCorridor (corridor_reset_forgets: the state after reset is a function of configuration and tape; "
+           "corridor_fresh_twin under every manager, no hypothesis on the used object), MultiAgentGridSim "
+           "(multigrid_reset_forgets, multigrid_fresh_twin, multigrid_fresh_twin_reachable) and ReachTheTargetSim "
+           "(reach_reset_forgets, reach_fresh_twin, reach_reset_establishes), tied by used-versus-fresh twins of real objects.",
+}
+for _pid, _t in MORE_EXAMPLES.items():
+    CHECKS[_pid]["text"] += " " + _t
 
 PENDING = {
 }
